@@ -260,12 +260,25 @@ func grpcReuseCase(r *Recorder, pid string, overlap, sameTransport bool, recLen,
 	}
 	second := make(chan res, 1)
 	go func() { c, s, err := connect(); second <- res{c, s, err} }()
+	var r2 res
+	have2 := false
 	if overlap {
-		time.Sleep(300 * time.Millisecond) // the second handshake has started (and may be waiting for the Read)
-		c1.Write(old)                      // ... now the in-flight Read gets its record
+		// The second handshake has started. The unchanged code makes it wait for the Read in flight
+		// (Read holds the connection lock while it blocks), so it cannot finish before the old
+		// record is delivered. Should it not wait, let it finish first: the old connection's late
+		// record then arrives after the new connection has been set up, and whatever the old Read
+		// leaves behind must not show up on the new connection.
+		select {
+		case r2 = <-second:
+			have2 = true
+		case <-time.After(2 * time.Second):
+		}
+		c1.Write(old) // ... now the in-flight Read gets its record
 	}
 	<-readDone
-	r2 := <-second
+	if !have2 {
+		r2 = <-second
+	}
 	if r2.err != nil {
 		r.Violate(pid+"/setup", "second connection: "+r2.err.Error(), name)
 		return
